@@ -1227,6 +1227,18 @@ package bkl
 //@     invariant ((_ is VList) ret)
 //@     invariant (= (+ (llen (ls ret)) (sllen rest)) (sllen (reSplit (rePat yamlRE) in (- 1))))
 //
+//@ func jsonUnmarshalStream(in) (res, err)
+//@   property C05, C04
+//@   uses appNil, snocApp
+//@   ensures (= (isErr err) (not (= (decE (cfg_UseNumber codecJSONdec) in (decCount (cfg_UseNumber codecJSONdec) in)) ioEOF)))        [C05] [C04]
+//@   ensures (=> (not (isErr err)) (= res (VList (jsonReadF (cfg_UseNumber codecJSONdec) in 0))))                                 [C05] [C04]
+//@   loop 1
+//@     invariant ((_ is VList) ret)
+//@     invariant (= (codecOf dec) (cfg_UseNumber codecJSONdec))
+//@     invariant (and (<= 0 (encoded dec)) (<= (encoded dec) (decCount (cfg_UseNumber codecJSONdec) in)))
+//@     invariant (= (app (ls ret) (jsonReadF (cfg_UseNumber codecJSONdec) in (encoded dec))) (jsonReadF (cfg_UseNumber codecJSONdec) in 0))
+//@     decreases (- (decCount (cfg_UseNumber codecJSONdec) in) (encoded dec))
+//
 //@ regexp tomlRE
 //@   property C05
 //@   lines tomlSepLine
